@@ -93,16 +93,38 @@ package diskwriter
 //@ -- C20: stopping the recording or the departure of the publisher flushes and closes the file: when close returns, no track is left
 //@ -- with an open writer (a writer that is never closed keeps the file open and unfinished)
 //@ func (*diskTrack).writeBuffered
-//@   trusted
+//@   props C20
 //@   why diskwriter.go: pops samples from the sample builder and writes them; the first keyframe (or audio sample of an audio-only connection)
 //@       opens the file through initWriter, which creates a writer for EVERY track of the connection; may also close and reopen the file.
-//@       Keeps the connection's list of tracks and its lock.
-//@   requires nonnil: t != nil
+//@   requires nonnil: t != nil && t.conn != nil && t.remote != nil
 //@   modifies *
-//@   ensures keeps: keepstrack(t) && same(t.conn.tracks, old(t.conn.tracks))
-//@   ensures keeps-tracks: forall k int :: 0 <= k && k < len(t.conn.tracks) ==> t.conn.tracks[k] == old(t.conn.tracks[k])
+//@   -- frame conditions callers rely on, NOT proved here (assumptions): the connection's list of tracks and its lock are kept
+//@   trusts keeps: keepstrack(t) && same(t.conn.tracks, old(t.conn.tracks))
+//@   trusts keeps-tracks: forall k int :: 0 <= k && k < len(t.conn.tracks) ==> t.conn.tracks[k] == old(t.conn.tracks[k])
 //@        && t.conn.tracks[k].conn == old(t.conn.tracks[k].conn) && t.conn.tracks[k].remote == old(t.conn.tracks[k].remote)
+//@   ematch
+//@   -- type invariant of a recording connection (assumed, as for close and initWriter): its tracks are real, belong to it and have a publisher,
+//@   -- and the track is one of them
+//@   assume tracks: forall k int :: 0 <= k && k < len(t.conn.tracks) ==> wellformed(t.conn.tracks[k]) && t.conn.tracks[k] != nil && t.conn.tracks[k].remote != nil && t.conn.tracks[k].conn == t.conn
+//@   assume member: exists k int :: 0 <= k && k < len(old(t.conn.tracks)) && old(t.conn.tracks[k]) == t
+//@   -- closing and reopening the file leaves the connection's list of tracks, and each track's connection and publisher, in place
+//@   invariant loop 1 conn: t != nil && t.conn != nil && t.conn == old(t.conn) && same(t.conn.tracks, old(t.conn.tracks))
+//@   invariant loop 1 tracks: forall k int :: 0 <= k && k < len(old(t.conn.tracks)) ==> old(t.conn.tracks)[k] == old(t.conn.tracks[k]) && wellformed(old(t.conn.tracks)[k])
+//@        && old(t.conn.tracks)[k] != nil && old(t.conn.tracks)[k].remote != nil && old(t.conn.tracks)[k].conn == old(t.conn)
+//@   -- C20 (each frame is written once, intact, with its own time): the block handed to the container writer is the popped sample's data,
+//@   -- stamped with the sample's RTP time minus the track's origin, modulo 2^32, in milliseconds at the track's own clock rate
+//@   assert at call Write own-time: valid(t.origin) && arg_timestamp == int64((ts - uint32(t.origin)) / (icall("conn.UpTrack.Codec", t.remote).ClockRate / 1000))
+//@   assert at call Write own-data: sample != nil && same(arg_b, sample.Data) && arg_keyframe == keyframe
 //@
+//@ extern (*github.com/jech/samplebuilder.SampleBuilder).PopWithTimestamp
+//@   why samplebuilder: pops the next complete sample from the builder's own buffer; no effect on the recorder's state
+//@   modifies nothing
+//@ extern (*github.com/jech/samplebuilder.SampleBuilder).ForcePopWithTimestamp
+//@   why samplebuilder: as PopWithTimestamp, without waiting for late packets; no effect on the recorder's state
+//@   modifies nothing
+//@ iface mkvcore.BlockWriteCloser.Write
+//@   why ebml-go: hands one block to the container writer; no effect on the recorder's state
+//@   modifies nothing
 //@ iface mkvcore.BlockWriteCloser.Close
 //@   why ebml-go: finishes the track's part of the file (the file is closed when the last writer is); no effect on the recorder's state
 //@   modifies nothing
@@ -184,6 +206,13 @@ package diskwriter
 //@   invariant loop 2 origin: track != nil && old(valid(track.origin)) ==> valid(track.origin)
 //@   -- a track that had a time origin has one when the file has been (re)opened: the keyframe that opens the file, and what follows, is written
 //@   ensures origin-kept: isnil(result) && track != nil && old(valid(track.origin)) ==> valid(track.origin)
+//@   -- the connection's list of tracks, and each track's connection and publisher, are left as they were (writeBuffered relies on it)
+//@   invariant loop 1 kept: same(conn.tracks, old(conn.tracks)) && (forall k int :: 0 <= k && k < len(old(conn.tracks)) ==> old(conn.tracks)[k] == old(conn.tracks[k]))
+//@   invariant loop 2 kept: same(conn.tracks, old(conn.tracks)) && (forall k int :: 0 <= k && k < len(old(conn.tracks)) ==> old(conn.tracks)[k] == old(conn.tracks[k])
+//@        && old(conn.tracks)[k] != nil && old(conn.tracks)[k].conn == conn && old(conn.tracks)[k].remote != nil)
+//@   ensures keeps: same(conn.tracks, old(conn.tracks))
+//@   ensures keeps-tracks: forall k int :: 0 <= k && k < len(conn.tracks) ==> conn.tracks[k] == old(conn.tracks[k])
+//@        && conn.tracks[k].conn == conn && conn.tracks[k].remote != nil
 //@
 //@ func requestKeyframe
 //@   trusted
